@@ -18,6 +18,7 @@ package types
 //@ extern func gemmill/types.SignBytes
 //@   pure
 //@   ensures typeIs(o, *Vote) ==> result == voteSB(chainID, unbox(o, *Vote))
+//@   ensures typeIs(o, *Proposal) ==> result == proposalSB(chainID, unbox(o, *Proposal))
 
 // ---------------------------------------------------------------------------------------------
 // BlockID / PartSetHeader
@@ -394,3 +395,31 @@ package types
 
 //@ lemma restartSafe: forall(h, Int, forall(r, Int, forall(s, Int, !hrsLess(h, r, s, h, r, s))))
 //@   props C03
+
+//@ spec sbProposal(chainID String, height Int, round Int, parts PartSetHeader, polRound Int, polID BlockID) Bytes
+//@ define proposalSB(chainID String, p *Proposal) Bytes = sbProposal(chainID, p.Height, p.Round, p.BlockPartsHeader, p.POLRound, p.POLBlockID)
+
+//@ func (*PrivValidator).SignVote
+//@   props C03 C01
+//@   requires privVal != nil && signerInv(privVal) && vote != nil
+//@   assigns  privVal.LastHeight, privVal.LastRound, privVal.LastStep, privVal.LastSignature, privVal.LastSignBytes, privVal.mtx.*, fs, durH, durR, durS, durBytes, durSig, vote.Signature
+//@   aborts when (vote.Type != VoteTypePrevote && vote.Type != VoteTypePrecommit) || (old(privVal.LastSignBytes) != nil && old(privVal.LastSignature) == nil)
+//@   ensures  [signed-exactly-this-step] result == nil ==> durH == vote.Height && durR == vote.Round && durS == ite(vote.Type == VoteTypePrevote, 2, 3)
+//@   ensures  [signed-exactly-these-bytes] result == nil ==> bytesEq(durBytes, voteSB(chainID, vote))
+//@   ensures  [signature-is-the-durable-one] result == nil ==> vote.Signature == durSig
+//@   ensures  [no-regression] result == nil ==> !hrsLess(vote.Height, vote.Round, ite(vote.Type == VoteTypePrevote, 2, 3), old(durH), old(durR), old(durS))
+//@   ensures  [same-step-same-bytes] result == nil && hrsEq(vote.Height, vote.Round, ite(vote.Type == VoteTypePrevote, 2, 3), old(durH), old(durR), old(durS)) ==> bytesEq(old(durBytes), voteSB(chainID, vote))
+//@   ensures  [refused-leaves-vote-unsigned] result != nil ==> vote.Signature == old(vote.Signature)
+//@   ensures  [refused-leaves-record] result != nil ==> durH == old(durH) && durR == old(durR) && durS == old(durS) && durBytes == old(durBytes)
+//@   ensures  signerInv(privVal)
+
+//@ func (*PrivValidator).SignProposal
+//@   props C03 C01
+//@   requires privVal != nil && signerInv(privVal) && proposal != nil
+//@   assigns  privVal.LastHeight, privVal.LastRound, privVal.LastStep, privVal.LastSignature, privVal.LastSignBytes, privVal.mtx.*, fs, durH, durR, durS, durBytes, durSig, proposal.Signature
+//@   aborts when old(privVal.LastSignBytes) != nil && old(privVal.LastSignature) == nil
+//@   ensures  [signed-exactly-this-step] result == nil ==> durH == proposal.Height && durR == proposal.Round && durS == 1 && bytesEq(durBytes, proposalSB(chainID, proposal)) && proposal.Signature == durSig
+//@   ensures  [no-regression] result == nil ==> !hrsLess(proposal.Height, proposal.Round, 1, old(durH), old(durR), old(durS))
+//@   ensures  [same-step-same-bytes] result == nil && hrsEq(proposal.Height, proposal.Round, 1, old(durH), old(durR), old(durS)) ==> bytesEq(old(durBytes), proposalSB(chainID, proposal))
+//@   ensures  [refused-leaves-proposal-unsigned] result != nil ==> proposal.Signature == old(proposal.Signature)
+//@   ensures  signerInv(privVal)
